@@ -3,6 +3,7 @@ import Verif.Facts.CpuNow
 import Verif.Facts.CpuEntries
 import Verif.Facts.CpuConsts
 import Verif.Impl.Run
+import Verif.Proofs.RunCycles
 /-
   C02 — Reported clock cycles equal the data-sheet cycle count of the executed path.
   Depends on the regenerated facts `implemented_entry` and `consts_ok`.
@@ -28,32 +29,13 @@ theorem C02_literals : Generated.consts = expectedConsts := consts_ok
 
 variable {σ : Type}
 
-/-- Σ of the cycles of the non-halting instructions along the executed path (a function of the
-    start registers and memory only) -/
-def pathCycles (tbl : Byte → Option H) (kc : CycleConsts) (model : CpuModel) (bus : Bus σ) : Nat → Regs → σ → Nat
-  | 0, _, _ => 0
-  | n + 1, regs, mem =>
-    match (Impl.step tbl kc model regs).run bus mem with
-    | (.error _, _) => 0
-    | (.ok (out, regs'), mem') =>
-      if out.halt then 0 else out.cycles + pathCycles tbl kc model bus n regs' mem'
+export Verif.Proofs (pathCycles)
 
 /-- C02_run: the counter after a run = the counter before + Σ cycles of the executed non-halting
     instructions; the halting BRK (and a faulting instruction) contribute nothing. -/
 theorem C02_run (tbl : Byte → Option H) (kc : CycleConsts) (model : CpuModel) (bus : Bus σ) (n : Nat) (m : Machine σ) :
-    (runLoop tbl kc model bus n m).2.cycles = m.cycles + pathCycles tbl kc model bus n m.regs m.mem := by
-  induction n generalizing m with
-  | zero => simp [runLoop, pathCycles]
-  | succ n ih =>
-    cases h : (Impl.step tbl kc model m.regs).run bus m.mem with
-    | mk res mem' =>
-      cases res with
-      | error e => simp [runLoop, pathCycles, h]
-      | ok v =>
-        obtain ⟨out, regs'⟩ := v
-        by_cases hh : out.halt = true
-        · simp [runLoop, pathCycles, h, hh]
-        · simp [runLoop, pathCycles, h, hh, ih, Nat.add_assoc]
+    (runLoop tbl kc model bus n m).2.cycles = m.cycles + pathCycles tbl kc model bus n m.regs m.mem :=
+  Verif.Proofs.runLoop_cycles tbl kc model bus n m
 
 /-- a fresh run starts from zero, a continued run (test iterations) adds to the previous total -/
 theorem C02_reset (tbl : Byte → Option H) (kc : CycleConsts) (model : CpuModel) (bus : Bus σ) (n : Nat) (start : Addr) (reset : Bool) (m : Machine σ) :
